@@ -1,9 +1,13 @@
 package main
 
 import (
+	"encoding/json"
 	"errors"
 	"fmt"
 	"math/rand"
+	"os"
+	"path/filepath"
+	"sort"
 	"strings"
 
 	"github.com/jrhy/mast"
@@ -25,11 +29,23 @@ type faultSession struct {
 	aborted   bool
 	lastObs   string
 	positions int
+	marCount  int
+	marFail   int
+	lastErr   string
 }
 
 func newFaultSession(c Cfg) *faultSession {
 	fs := &faultSession{Session: NewSession(c), cmpFail: -1}
-	def := mast.DefaultKeyCompare(nil)
+	fs.marFail = -1
+	fs.Session.marshal = func(v interface{}) ([]byte, error) {
+		n := fs.marCount
+		fs.marCount++
+		if n == fs.marFail {
+			return nil, errInjected
+		}
+		return json.Marshal(v)
+	}
+	def := mast.DefaultKeyCompare(fs.Session.marshal)
 	fs.Session.keyCompare = func(a, b interface{}) (int, error) {
 		n := fs.cmpCount
 		fs.cmpCount++
@@ -93,7 +109,7 @@ func (fs *faultSession) Exec(line string) (obs, viol string) {
 			fs.Oracle[slot] = oracleBefore
 			if after := fs.snapshot(slot); after != before {
 				viol = fs.describeChange(t[2:], kind, idx, op, before, after, oracleBefore)
-				if strings.HasPrefix(viol, "KF-delete-shrink: ") && backup != nil {
+				if (strings.HasPrefix(viol, "KF-delete-shrink: ") || strings.HasPrefix(viol, "KF-insert-grow-layer: ")) && backup != nil {
 					// the recorded known finding: note it once, put the tree back as it was and go on
 					// with the fault-free call, so that the rest of the history is still exercised
 					knownHits = append(knownHits, knownHit{line, viol})
@@ -120,6 +136,12 @@ func (fs *faultSession) Exec(line string) (obs, viol string) {
 	fmt.Sscan(t[2], &idx)
 	op := strings.Join(t[3:], " ")
 	slot := fs.slotOf(t[3:])
+	var backup *mast.Mast
+	if m := fs.Trees[slot]; m != nil {
+		if c, err := m.Clone(fs.ctx); err == nil {
+			backup = &c
+		}
+	}
 	before := fs.snapshot(slot)
 	oracleBefore := copyMap(fs.Oracle[slot])
 	o1, hit := fs.runWithFault(kind, idx, op)
@@ -140,6 +162,13 @@ func (fs *faultSession) Exec(line string) (obs, viol string) {
 	fs.Oracle[slot] = oracleBefore
 	if after := fs.snapshot(slot); after != before {
 		viol = fs.describeChange(t[3:], kind, idx, op, before, after, oracleBefore)
+		if (strings.HasPrefix(viol, "KF-delete-shrink: ") || strings.HasPrefix(viol, "KF-insert-grow-layer: ")) && backup != nil {
+			knownHits = append(knownHits, knownHit{line, viol})
+			fs.Trees[slot] = backup
+			o2, v2 := fs.Session.Exec(op)
+			fs.lastObs = o2
+			return o2, v2
+		}
 		fs.aborted = true
 		fs.lastObs = "state-changed"
 		return "state-changed", viol
@@ -178,19 +207,39 @@ func (fs *faultSession) runWithFault(kind string, idx int, op string) (string, b
 	case "cmp":
 		fs.cmpCount = 0
 		fs.cmpFail = idx
+	case "mar":
+		fs.marCount = 0
+		fs.marFail = idx
 	}
 	o1, _ := fs.Session.Exec(op)
+	fs.lastErr = o1
 	fs.Store.FailLoad = nil
 	if kind == "cmp" {
 		hit = fs.cmpCount > idx
 		fs.cmpFail = -1
 	}
+	if kind == "mar" {
+		hit = fs.marCount > idx
+		fs.marFail = -1
+	}
 	return o1, hit
 }
 
 func (fs *faultSession) describeChange(op []string, kind string, idx int, opline, before, after string, oracleBefore map[uint64]uint64) string {
-	viol := fmt.Sprintf("%s returned an error after call %d of kind %s failed, and the tree changed: before %s, after %s", opline, idx, kind, before, after)
-	if op[0] == "del" && strings.HasPrefix(after, "[") && kind == "load" {
+	viol := fmt.Sprintf("%s returned an error (%s) after call %d of kind %s failed, and the tree changed: before %s, after %s", opline, fs.lastErr, idx, kind, before, after)
+	if op[0] == "ins" && strings.HasPrefix(after, "[") && (strings.Contains(fs.lastErr, "canGrow:") || strings.Contains(fs.lastErr, "grow:")) {
+		// recognise: the entry is in, the size was not incremented, the layer computation of the
+		// growth step failed
+		var k, v uint64
+		fmt.Sscan(op[2], &k)
+		fmt.Sscan(op[3], &v)
+		exp := copyMap(oracleBefore)
+		exp[k] = v
+		if strings.HasPrefix(after, sortedList(exp)+" size="+fmt.Sprint(len(oracleBefore))+" ") {
+			viol = "KF-insert-grow-layer: " + viol
+		}
+	}
+	if op[0] == "del" && strings.HasPrefix(after, "[") && strings.Contains(fs.lastErr, "shrink:") {
 		// recognise the known shape: the entry is gone, the size is one less, only the height reduction failed
 		var k uint64
 		fmt.Sscan(op[2], &k)
@@ -234,8 +283,11 @@ func genFaultCase(r *rand.Rand, cfg Cfg) Case {
 			nroot++
 		}
 		kind := pick(r, []string{"load", "load", "cmp"})
+		if cfg.KK == "sk" {
+			kind = pick(r, []string{"load", "cmp", "mar", "mar"}) // struct keys: order and layer go through Marshal
+		}
 		idx := r.Intn(8)
-		if kind == "cmp" {
+		if kind == "cmp" || kind == "mar" {
 			idx = r.Intn(30)
 		}
 		k := pick(r, uni)
@@ -284,22 +336,59 @@ func famFaults(f *FamCtx) {
 		if strings.HasPrefix(o.Viol, "KF-delete-shrink: ") {
 			return "delete-committed-then-load-failed-during-height-reduction@pub.go:Delete->shrink"
 		}
+		if strings.HasPrefix(o.Viol, "KF-insert-grow-layer: ") {
+			return "insert-committed-then-layer-callback-failed-during-growth@pub.go:Insert->canGrow/grow"
+		}
 		return ""
 	}
-	f.Report.Rule = "persisted and partly modified trees without cache; Insert (new / update / equal), Delete, Get, Iter, SeekIter, Clone run with the i-th Persist.Load (i < 8) or the i-th KeyCompare call (i < 30) of that operation failing; if the call returns an error the contents, size and height are re-read through the fault-free view and must be unchanged, then the same call is retried and its result compared with the model; a panic (validateNode panics on a failing comparison) ends the case; non-trivial = reached height >= 1 and changed height"
+	f.Report.Rule = "persisted and partly modified trees without cache; Insert (new / update / equal), Delete, Get, Iter, SeekIter, Clone run with the i-th Persist.Load (i < 8) or the i-th KeyCompare call (i < 30) of that operation failing; if the call returns an error the contents, size and height are re-read through the fault-free view (struct keys add the Marshal callback as a third fault kind) and must be unchanged, then the same call is retried and its result compared with the model; a panic (validateNode panics on a failing comparison) ends the case; non-trivial = reached height >= 1 and changed height"
 	rn := Runner{Mk: func(c Cfg) Executor { return newFaultSession(c) }}
-	f.Gen = func() Case { return genFaultCase(f.Rand, RandCfg(f.Rand)) }
+	f.Gen = func() Case {
+		cfg := RandCfg(f.Rand)
+		if f.Rand.Intn(5) == 0 {
+			// struct keys: order and layer go through the Marshal callback (third fault kind)
+			cfg.KK = "sk"
+			cfg.BF = pick(f.Rand, []uint{2, 3})
+		}
+		return genFaultCase(f.Rand, cfg)
+	}
 	n := f.N(200, 8000)
-	for i := 0; i < n; i++ {
-		c := f.Gen()
+	reported := map[string]bool{}
+	// the witnesses of the recorded findings run first, so that every run meets them
+	var witnesses []Case
+	dir := os.Getenv("VERIF_DIR")
+	if dir == "" {
+		dir = "/verif"
+	}
+	files, _ := filepath.Glob(filepath.Join(dir, "findings", "C12-*.json"))
+	sort.Strings(files)
+	for _, p := range files {
+		if b, err := os.ReadFile(p); err == nil {
+			var w struct {
+				Case Case `json:"case"`
+			}
+			if json.Unmarshal(b, &w) == nil && len(w.Case.Ops) > 0 {
+				witnesses = append(witnesses, w.Case)
+			}
+		}
+	}
+	for i := 0; i < n+len(witnesses); i++ {
+		var c Case
+		if i < len(witnesses) {
+			c = witnesses[i]
+		} else {
+			c = f.Gen()
+		}
 		before := len(knownHits)
 		f.RunTreeCase(c, rn, multiLevel)
-		if before == 0 && len(knownHits) > 0 {
-			// report the recorded finding once, with the history on which it was first met
-			h := knownHits[0]
-			f.Report.Findings = append(f.Report.Findings, Finding{Family: "faults", Property: "C12", Case: c, Shrunk: c,
-				Outcome: Outcome{Kind: "oracle", Line: h.line, Viol: h.viol}, FailingInput: true,
-				Signature: f.Sig(Outcome{Viol: h.viol})})
+		for _, h := range knownHits[before:] {
+			// report each recorded finding once, with the history on which it was first met
+			sig := f.Sig(Outcome{Viol: h.viol})
+			if !reported[sig] {
+				reported[sig] = true
+				f.Report.Findings = append(f.Report.Findings, Finding{Family: "faults", Property: "C12", Case: c, Shrunk: c,
+					Outcome: Outcome{Kind: "oracle", Line: h.line, Viol: h.viol}, FailingInput: true, Signature: sig})
+			}
 		}
 	}
 	f.Report.Stats = map[string]interface{}{"known_finding_occurrences_stepped_over": len(knownHits)}
